@@ -2,7 +2,7 @@ SPECIFICATION Spec
 CONSTANTS
   KindSet = {"handler", "sink", "qsensor"}
   RunDurs = {0, 2}
-  MaxOps = 7
+  MaxOps = 8
   MaxAssets = 4
   MaxSys = 2
   EmitHist = FALSE
